@@ -153,7 +153,8 @@ def run(rep, tier, rng):
     hist += [[('map', '!del', [('b', ('sc', None, '2'))])],
              [('map', None, []), ('map', '!del', [('b', ('sc', None, '2'))])],
              [('map', None, [('a', ('sc', None, '1'))]), ('map', '!del', [('b', ('sc', None, '2'))])]]
-    hist.append([('map', None, [('c', ('seq', None, [('sc', None, '1')]))]), ('map', None, [('c', ('seq', None, [('sc', '!weak', '5')]))])])     # D18
+    hist.append([('map', None, [('c', ('seq', None, [('sc', None, '2')]))]),
+                 ('map', None, [('c', ('map', '!del', [('c', ('sc', None, '1')), (0, ('sc', '!weak', 'null'))]))])])     # D18 seen through idempotence
     show = lambda docs: [gen.render(d) for d in docs]
     for docs in hist:
         tags = sum(len(gen.tag_hist(d)) for d in docs)
